@@ -1,0 +1,107 @@
+//go:build verif
+
+package decoder
+
+// Contracts for the bounds-checked binary decoder (property C17), checked by /verif/govc.
+// Comment-only file: it adds nothing to any build.
+//
+//@ spec wf(d *Decode) bool = 0 <= d.offset && d.offset <= len(d.data)
+//@ spec fits(d *Decode, n int) bool = 0 <= n && n <= len(d.data) - d.offset
+//@ spec be16(s []byte, i int) uint16 = uint16(s[i])<<8 | uint16(s[i+1])
+//@ spec be32(s []byte, i int) uint32 = uint32(s[i])<<24 | uint32(s[i+1])<<16 | uint32(s[i+2])<<8 | uint32(s[i+3])
+//
+//@ func NewDecoder
+//@   check safety, frame
+//@   ensures wf(result) && result.offset == 0 && result.lasterror == nil
+//@   ensures len(result.data) == len(data) && same(result.data, data)
+//@   modifies nothing
+//
+//@ func (*Decode).LastError
+//@   check safety, frame
+//@   ensures result == d.lasterror
+//@   modifies nothing
+//
+//@ func (*Decode).Available
+//@   check safety, frame
+//@   ensures result == len(d.data) - d.offset
+//@   modifies nothing
+//
+//@ func (*Decode).HasBytes
+//@   check safety, frame
+//@   requires wf(d)
+//@   ensures (result == nil) <==> (0 <= d.offset+size && d.offset+size <= len(d.data))
+//@   modifies nothing
+//
+//@ func (*Decode).Byte
+//@   check safety, frame
+//@   requires wf(d)
+//@   ensures [fits]  old(fits(d, 1)) ==> result == old(d.data[d.offset]) && d.offset == old(d.offset)+1 && d.lasterror == old(d.lasterror)
+//@   ensures [nofit] !old(fits(d, 1)) ==> result == 0 && d.offset == old(d.offset) && d.lasterror != nil
+//@   ensures [wf] wf(d)
+//@   modifies d.offset, d.lasterror
+//
+//@ func (*Decode).PeekByte
+//@   check safety, frame
+//@   requires wf(d)
+//@   ensures [fits]  old(fits(d, 1)) ==> result == old(d.data[d.offset]) && d.lasterror == old(d.lasterror)
+//@   ensures [nofit] !old(fits(d, 1)) ==> result == 0 && d.lasterror != nil
+//@   ensures [nomove] d.offset == old(d.offset)
+//@   modifies d.lasterror
+//
+//@ func (*Decode).Int16
+//@   check safety, frame
+//@   requires wf(d)
+//@   ensures [fits]  old(fits(d, 2)) ==> result == int16(old(be16(d.data, d.offset))) && d.offset == old(d.offset)+2 && d.lasterror == old(d.lasterror)
+//@   ensures [nofit] !old(fits(d, 2)) ==> result == 0 && d.offset == old(d.offset) && d.lasterror != nil
+//@   ensures [wf] wf(d)
+//@   modifies d.offset, d.lasterror
+//
+//@ func (*Decode).PeekInt16
+//@   check safety, frame
+//@   requires wf(d)
+//@   ensures [fits]  old(fits(d, 2)) ==> result == int16(old(be16(d.data, d.offset))) && d.lasterror == old(d.lasterror)
+//@   ensures [nofit] !old(fits(d, 2)) ==> result == 0 && d.lasterror != nil
+//@   ensures [nomove] d.offset == old(d.offset)
+//@   modifies d.lasterror
+//
+//@ func (*Decode).Uint32
+//@   check safety, frame
+//@   requires wf(d)
+//@   ensures [fits]  old(fits(d, 4)) ==> result == old(be32(d.data, d.offset)) && d.offset == old(d.offset)+4 && d.lasterror == old(d.lasterror)
+//@   ensures [nofit] !old(fits(d, 4)) ==> result == 0 && d.offset == old(d.offset) && d.lasterror != nil
+//@   ensures [wf] wf(d)
+//@   modifies d.offset, d.lasterror
+//
+//@ func (*Decode).Int32
+//@   check safety, frame
+//@   requires wf(d)
+//@   ensures [fits]  old(fits(d, 4)) ==> result == int32(old(be32(d.data, d.offset))) && d.offset == old(d.offset)+4 && d.lasterror == old(d.lasterror)
+//@   ensures [nofit] !old(fits(d, 4)) ==> result == 0 && d.offset == old(d.offset) && d.lasterror != nil
+//@   ensures [wf] wf(d)
+//@   modifies d.offset, d.lasterror
+//
+//@ func (*Decode).Copy
+//@   check safety, frame
+//@   requires wf(d)
+//@   ensures [fits]  old(fits(d, size)) ==> len(result) == size && same(result, old(d.data)[old(d.offset):old(d.offset)+size]) && fresh(result)
+//@   ensures [fits-cursor]  old(fits(d, size)) ==> d.offset == old(d.offset)+size && d.lasterror == old(d.lasterror)
+//@   ensures [nofit] !old(fits(d, size)) ==> result == nil && d.offset == old(d.offset) && d.lasterror != nil
+//@   ensures [wf] wf(d)
+//@   modifies d.offset, d.lasterror
+//
+//@ func (*Decode).Seek
+//@   check safety, frame
+//@   requires wf(d)
+//@   ensures [ok]  (0 <= old(d.offset)+pos && old(d.offset)+pos <= len(d.data)) ==> d.offset == old(d.offset)+pos && d.lasterror == old(d.lasterror)
+//@   ensures [bad] !(0 <= old(d.offset)+pos && old(d.offset)+pos <= len(d.data)) ==> d.offset == old(d.offset) && d.lasterror != nil
+//@   ensures [wf] wf(d)
+//@   modifies d.offset, d.lasterror
+//
+//@ func (*Decode).Data
+//@   check safety, frame
+//@   requires wf(d)
+//@   ensures [wf] wf(d)
+//@   ensures [short] !old(fits(d, 2)) ==> result == "" && d.offset == old(d.offset) && d.lasterror != nil
+//@   ensures [neglen] old(fits(d, 2)) && int16(old(be16(d.data, d.offset))) < 0 ==> result == "" && d.offset == old(d.offset)+2 && d.lasterror != nil
+//@   ensures [fits] old(fits(d, 2)) && int16(old(be16(d.data, d.offset))) >= 0 && int(int16(old(be16(d.data, d.offset)))) <= len(d.data)-old(d.offset)-2 ==> len(result) == int(int16(old(be16(d.data, d.offset)))) && d.offset == old(d.offset)+2+len(result) && same(result, old(d.data)[old(d.offset)+2:old(d.offset)+2+len(result)])
+//@   modifies d.offset, d.lasterror
